@@ -5,6 +5,21 @@ CC2 == [d \in DBs |-> IF d = "A" THEN {{"c1"}, {"c1", "c2"}} ELSE {{"c2"}}]
 CC3 == [d \in DBs |-> IF d = "A" THEN {{"c1"}, {"c1", "c2"}} ELSE {{"c2"}, {"c2", "c3"}}]
 CCA == [d \in DBs |-> IF d = "A" THEN {{"c1"}} ELSE {}]
 NodeSym == Permutations(Nodes)
+(* Simulation: TLC picks uniformly among SUCCESSOR STATES; with Next the ~20 ways to start an operation would swamp the one
+   or two storage steps that are possible, i.e. every operation would start at once.  SimNext yields one successor per
+   action kind (a storage step of each node in flight, one start with random arguments, one load, one crash). *)
+SimNext ==
+  /\ Len(hist) < MaxSteps
+  /\ \/ \E n \in Nodes : StorageStep(n)
+     \/ /\ AllIdle \/ RandomElement(1..3) = 1          \* while something is in flight a new call starts now and then
+        /\ \E n \in {RandomElement(Nodes)}, d \in {RandomElement(DBs)}, k \in {RandomElement(1..4)} :     \* (drawn once each)
+             LET t == IF Loadable(reg[d]) /\ cfg[d] # NoCfg                \* mostly operations that will do something
+                      THEN (CASE k = 1 -> "I" [] k = 2 -> "D" [] OTHER -> "U")
+                      ELSE (CASE k = 1 -> "U" [] k = 2 -> "D" [] OTHER -> "I") IN
+             IF t = "D" THEN StartOp(n, "D", d, {}) ELSE \E cs \in {RandomElement(CollChoices[d])} : StartOp(n, t, d, cs)
+     \/ RandomElement(1..4) = 1 /\ StartLoad(RandomElement(Nodes))
+     \/ RandomElement(1..8) = 1 /\ Crash(RandomElement(Nodes))
+SimSpec == Init /\ [][SimNext]_vars
 Terminal == AllIdle /\ nops = MaxOps /\ nloads = MaxLoads
 (* counterexample export: the violated property predicate prints the behaviour that led to it *)
 Cex(name, ok) == ok \/ (PrintT(<<"CEX", ToJson([inv |-> name, steps |-> hist])>>) /\ FALSE)
